@@ -37,6 +37,7 @@ L == INSTANCE RetryLoop WITH
         Rets  <- IF Is("strategy") THEN {Cur.ret} ELSE {},
         Advs  <- IF Is("sleep") THEN {Cur.adv} ELSE {},
         Decs  <- IF Is("handler") THEN {Cur.dec} ELSE {},
+        BFaults <- IF Is("bsleep") THEN {Cur.fault} ELSE {},
         Ras   <- {},
         Modes <- IF Is("deliver") THEN {Cur.mode} ELSE {},
         NRuns <- NDeliver(tid)
